@@ -40,3 +40,62 @@ contract("decaylanguage.dec.dec.get_definitions", types={"parsed_file": "obj:Tre
 contract("decaylanguage.dec.dec.get_decays2copy_statements", types={"parsed_file": "obj:Tree"}, requires=WF,
          ensures=lastwins("copydecay", "{t}.children[0].children[0].value", "{t}.children[1].children[0].value"),
          returns="dict", properties=["C07", "C08"])
+
+contract("decaylanguage.dec.dec._str_or_float", types={"arg": "str"},
+         ensures=["implies(float_ok(arg), typ(result, 'float') and result == float(arg))",
+                  "implies(not float_ok(arg), same(result, arg))"],
+         properties=["C07"])
+
+contract("decaylanguage.dec.dec._str_to_bool", types={"arg": "str"},
+         ensures=["result == (arg == 'yes')"],
+         raises={"ValueError": "arg != 'yes' and arg != 'no'"},
+         returns="bool", properties=["C07"])
+
+S = "stmts(parsed_file, 'global_photos')"
+contract("decaylanguage.dec.dec.get_global_photos_flag", types={"parsed_file": "obj:Tree"}, requires=WF,
+         ensures=[
+             # off when absent
+             f"implies(len({S}) == 0, result == 0)",
+             # otherwise the LAST flag given
+             f"implies(len({S}) > 0, result == (1 if {S}[len({S}) - 1].children[0].data == 'yes' else 0))",
+         ],
+         returns="int", properties=["C07"])
+
+S = "stmts(parsed_file, 'cdecay')"
+contract("decaylanguage.dec.dec.get_charge_conjugate_decays", types={"parsed_file": "obj:Tree"}, requires=WF,
+         ensures=[
+             "isfresh(result)",
+             f"len(result) == len({S})",
+             # a permutation of the names of all CDecay statements (multiset kept) ...
+             f"forall(lambda j: implies(0 <= j < len(result), 0 <= sorted_src(result, j) < len({S}) and "
+             f"       same(result[j], {S}[sorted_src(result, j)].children[0].value)))",
+             f"forall(lambda j, k: implies(0 <= j < k < len(result), sorted_src(result, j) != sorted_src(result, k)))",
+             # ... in ascending order
+             "forall(lambda j, k: implies(0 <= j < k < len(result), str_le(result[j], result[k])))",
+         ],
+         returns="list", properties=["C07", "C03"])
+
+S = "stmts(parsed_file, 'setlspw')"
+
+
+def _pw(L, j):
+    """facts about element j of list L: it is ([m, d1, d2], int) of the j-th SetLineshapePW statement"""
+    e = f"lget({L}, {j})"
+    return [f"typ({e}, 'tuple') and llen({e}) == 2",
+            f"llen(lget({e}, 0)) == 3",
+            f"lget(lget({e}, 0), 0) == {S}[{j}].children[0].value",
+            f"lget(lget({e}, 0), 1) == {S}[{j}].children[1].value",
+            f"lget(lget({e}, 0), 2) == {S}[{j}].children[2].value",
+            f"lget({e}, 1) == int({S}[{j}].children[3].value)"]
+
+
+contract("decaylanguage.dec.dec.get_lineshapePW_definitions", types={"parsed_file": "obj:Tree"}, requires=WF,
+         ensures=["isfresh(result)", f"len(result) == len({S})"] +
+                 # every statement, in order, as ([mother, d1, d2], int)
+                 [f"forall(lambda j: implies(0 <= j < len(result), {c}))" for c in _pw("result", "j")],
+         loops={"loop#0": {"invariant": ["isfresh(d)", "len(d) == _i"] +
+                           [f"forall(lambda j: implies(0 <= j < _i, {c}))" for c in _pw("d", "j")] +
+                           # the tuples and name lists already stored are objects of their own
+                           ["forall(lambda j: implies(0 <= j < _i, isfresh(lget(d, j)) and isfresh(lget(lget(d, j), 0))))"],
+                           "types": {"d": "list"}}},
+         returns="list", properties=["C07"])
